@@ -3,15 +3,17 @@
 # worktree of /verif against it.   usage: tools/mutest.sh <patch.diff> <Cxx> [<Cyy> …]
 # Neither /repo nor /verif's main worktree is touched.
 set -e
+MT="${MT:-/tmp/mt}"
 PATCH="$(readlink -f "$1")"; shift
 SHA=$(git -C /verif rev-parse HEAD)
-[ -d /tmp/mt/verif ] || git -C /verif worktree add --detach /tmp/mt/verif "$SHA" >/dev/null
-git -C /tmp/mt/verif checkout -q -f --detach "$SHA"
-rm -rf /tmp/mt/repo; git -C /repo worktree prune; git -C /repo worktree add --detach /tmp/mt/repo HEAD >/dev/null 2>&1
-git -C /tmp/mt/repo apply "$PATCH"
-cd /tmp/mt/verif
+mkdir -p $MT
+[ -d $MT/verif ] || { git -C /verif worktree add --detach $MT/verif "$SHA" >/dev/null; cp -r /verif/lean/.lake $MT/verif/lean/.lake; cp -r /verif/harness/target /verif/harness/target-seq /verif/harness/target-dbg $MT/verif/harness/ 2>/dev/null || true; cp /verif/harness/Cargo.lock $MT/verif/harness/; }
+git -C $MT/verif checkout -q -f --detach "$SHA"
+rm -rf $MT/repo; git -C /repo worktree prune; git -C /repo worktree add --detach $MT/repo HEAD >/dev/null 2>&1
+git -C $MT/repo apply "$PATCH"
+cd $MT/verif
 for P in "$@"; do
   echo "=== $P"
-  VERIF_REPO=/tmp/mt/repo ./check "$P" 2>&1 | grep -v "^KNOWN-FINDING" | tail -4 || true
+  VERIF_REPO=$MT/repo ./check "$P" 2>&1 | grep -v "^KNOWN-FINDING" | tail -4 || true
 done
-git -C /repo worktree remove --force /tmp/mt/repo
+git -C /repo worktree remove --force $MT/repo
